@@ -392,6 +392,12 @@ def d_len1(F, s):
     if not (n.get("k") == "Call" and s.kind in ("unwrap", "expect")):
         return None
     a = peel(n["args"][0])
+    if a.get("k") == "Var":
+        # `let first = v.into_iter().next(); .. first.expect(..)`: an immutable binding of the element
+        init = q.let_init(F.fns[s.fn].body, a["id"])
+        immut = any(pp.get("k") == "Bind" and pp.get("id") == a["id"] and pp.get("mode", "").endswith("Not)") for pt in q.all_patterns(F.fns[s.fn].body) for pp in q._walk_pat(pt))
+        if init is not None and immut:
+            a = peel(init)
     if call_is(a, "Iterator::next"):
         b = peel(a["args"][0])
         if not call_is(b, "IntoIterator::into_iter"):
@@ -403,13 +409,13 @@ def d_len1(F, s):
             v = peel(v["args"][0])
     else:
         return None
-    if v.get("k") != "Var":
+    if q.place(v) is None:
         return None
-    vid, vname = v["id"], v["name"]
+    vid, vname = q.place(v), show(v)
     ctx = q.context(s.path, n)
     for e in ctx:
         # `match v.len() { 1 => v.into_iter().next().expect(..), .. }`
-        if e[0] == "arm" and call_is(peel(e[2]), "::len") and q.var_id(peel(e[2])["args"][0]) == vid:
+        if e[0] == "arm" and call_is(peel(e[2]), "::len") and q.place(peel(e[2])["args"][0]) == vid:
             pt = strip_ref(e[1])
             if pt.get("k") == "Const" and re.fullmatch(r"[1-9]\d*(_usize)?", pt["v"]):
                 return ("D-LEN1", "first element taken in the arm for length %s" % pt["v"])
@@ -450,16 +456,17 @@ def d_len1(F, s):
             elif f.get("k") == "Unary" and f["op"] == "Not" and call_is(peel(f["arg"]), "::is_empty"):
                 ok = True
                 g = peel(peel(f["arg"])["args"][0])
-            if not ok or g is None or g.get("k") != "Var":
+            if not ok or g is None or q.place(g) is None:
                 continue
-            same = g["id"] == vid
-            pair = (vid, g["id"]) in LOCKSTEP_PAIR_IDS
+            gid = q.place(g)
+            same = gid == vid
+            pair = (vid, gid) in LOCKSTEP_PAIR_IDS
             if not (same or pair):
                 continue
             # no mutation of the guarded vector between the guard and the site
             ifnode = [p for p in s.path if p.get("k") == "If" and p["cond"] is e[1]]
             region = _region_before(ifnode[-1]["then"], n) if ifnode else []
-            mut = [x for x in region if x.get("k") == "Call" and x.get("fn") and x["fn"].endswith(MUTATORS) and x.get("args") and q.var_id(x["args"][0]) in (vid, g["id"])]
+            mut = [x for x in region if x.get("k") == "Call" and x.get("fn") and x["fn"].endswith(MUTATORS) and x.get("args") and q.place(x["args"][0]) in (vid, gid)]
             if mut:
                 continue
             if same:
